@@ -31,6 +31,8 @@ Clauses ==
                    LET i == ColOut(C.mcout, col)  j == ColOut(C.binout, col) IN
                    i # 0 /\ j # 0 /\ C.mcout[i][2] = C.binout[j][2], "C12_output_differs")
       \cup Flag(C.raw_unchanged, "C12_raw_columns_modified")
+      \* the output still holds the raw columns: transforming it again rebuilds the same f_ci columns
+      \cup Flag(C.retransform_same, "C12_transform_of_its_own_output_differs")
 Init == tid \in 1..Len(Cases) /\ done = FALSE
 Judge == /\ ~done /\ done' = PrintT(<<"VERDICT", tid, Clauses>>) /\ UNCHANGED tid
 Spec == Init /\ [][Judge]_vars
